@@ -349,6 +349,19 @@ impl Cw20 {
 }
 
 /// Random instantiate configuration covering the quantifier of C01/C13.
+/// add `n` further holders (addresses outside the actor pool, small balances), raising a cap by the same amount
+pub fn add_holders(rng: &mut Rng, cfg: &mut InitCfg, n: usize) {
+    let mut added: u128 = 0;
+    for i in 0..n {
+        let x = 1 + rng.below(500) as u128;
+        added += x;
+        cfg.balances.push((mk_addr(&format!("holder-{i:03}")), x));
+    }
+    if let Some((_, Some(cap))) = &mut cfg.mint {
+        *cap = cap.saturating_add(added);
+    }
+}
+
 pub fn gen_init(rng: &mut Rng, force_valid: bool) -> InitCfg {
     let p = pool();
     let n = rng.below(7) as usize;
